@@ -286,6 +286,8 @@ class ObjectDomain(LazyGenerators, EffectDomain):
             return [val(("kwdict", tuple((k, unbox_deep(v, st)) for k, v in items)), st)]
         if attr == "__class__" and is_inst(value):
             return [val(("classref", value[2]), st)]
+        if isinstance(value, tuple) and value[:1] == ("exc",) and attr == "args" and len(value) >= 4 and isinstance(value[3], tuple):
+            return [val(("tuple",) + tuple(value[3]), st)]   # an exception the model raised with these arguments
         if isinstance(value, tuple) and value[:1] == ("exc",) and attr == "args" and len(value) >= 2:
             return [val(("tuple", ("sym", "message of " + " ".join(str(x) for x in value[1:]))), st)]   # what the exception was raised with: one symbolic message
         if isinstance(value, tuple) and value[:1] == ("super",) and len(value) == 3:
@@ -904,18 +906,8 @@ class ObjectDomain(LazyGenerators, EffectDomain):
                 return [exc(("exc", "TypeError"), st)]
             return self.run_function(interp, f, argvals, st, fr, receiver=receiver, self_value=inst) if inst is not None else self.run_function(interp, f, argvals, st, fr, receiver=receiver)
         if tag == "dictmethod" and not kw:
-            cur = st.get(fn[1], None)
-            if isinstance(cur, tuple) and cur[:1] == ("kwdict",):
-                if fn[2] == "get" and 1 <= len(pos) <= 2:
-                    ok_, name = self._dkey(unbox_deep(pos[0], st))
-                    return [val(dict(cur[1]).get(name, pos[1] if len(pos) > 1 else NONE) if ok_ else TOP, st)]
-                if fn[2] == "items" and not pos:
-                    return [val(("kwitems", cur[1]), st)]
-                if fn[2] == "keys" and not pos:
-                    return [val(("tuple",) + tuple(self._dkey_abs(k) for k, _ in cur[1]), st)]
-                if fn[2] == "values" and not pos:
-                    return [val(("tuple",) + tuple(v for _, v in cur[1]), st)]
-            return [val(TOP, st)]
+            got = self._dict_read(st.get(fn[1], None), fn[2], pos, st)
+            return got if got is not None else [val(TOP, st)]
         if tag == "strmethod" and pos and not kw:
             pys = [self._py(unbox_deep(v, st)) for v in pos]
             if all(ok for ok, _ in pys) and isinstance(pys[0][1], (str, bytes)):
@@ -1773,8 +1765,31 @@ class ObjectDomain(LazyGenerators, EffectDomain):
             return self.apply(interp, fn, [arg], [], st, fr)
         return super()._apply(interp, fn, arg, st, fr)
 
+    def _dict_read(self, cur, method, pos, st):
+        """A method of dicts that only reads, on an exact dict -> results, or None."""
+        if isinstance(cur, tuple) and cur[:1] == ("kwdict",):
+            if method == "get" and 1 <= len(pos) <= 2:
+                ok_, name = self._dkey(unbox_deep(pos[0], st))
+                return [val(dict(cur[1]).get(name, pos[1] if len(pos) > 1 else NONE) if ok_ else TOP, st)]
+            if method == "items" and not pos:
+                return [val(("kwitems", cur[1]), st)]
+            if method == "keys" and not pos:
+                return [val(("tuple",) + tuple(self._dkey_abs(k) for k, _ in cur[1]), st)]
+            if method == "values" and not pos:
+                return [val(("tuple",) + tuple(v for _, v in cur[1]), st)]
+            if method == "copy" and not pos:
+                return [val(cur, st)]
+        return None
+
     def call_on_value(self, interp, receiver, call, st, fr):
         name = call.func.attr
+        if isinstance(receiver, tuple) and receiver[:1] == ("kwdict",) and name in ("get", "items", "keys", "values", "copy") and not call.keywords:
+            # <a call that returns a dict>.items() ...
+            out = []
+            for bad, pos, kw, s2 in self._call_args(interp, call, st, fr):
+                got = self._dict_read(receiver, name, pos, s2) if bad is None and pos is not None else None
+                out.extend(got if got is not None else [bad if bad is not None else val(TOP, s2)])
+            return out
         if not (is_inst(receiver) or is_exitstack(receiver) or receiver == ("self",)):
             return None
         out = []
